@@ -10,6 +10,7 @@ pub mod interp;
 pub mod model;
 pub mod ops;
 pub mod runner;
+pub mod shapes;
 pub mod steps;
 pub mod tracked;
 
